@@ -15,7 +15,7 @@ RULE = (
     "(maximisers, Garland cusps k*pi/60, DoubleSine tmax +- 2^-j, DifficultFunc 0.5 +- e^-m, log-scale neighbourhoods of 0) and "
     "their +-8-ulp / +-10^-e neighbours, as float / int / np.float64, with Hypothesis target(f(x)-fmax) steering the search; "
     "oracle: f(x) finite real, f(x) <= fmax (zero tolerance except Ackley: 8 ulp of 22.7), evaluation pure (twice, after other "
-    "objectives and RNG reseeding, input not mutated); subcheck 'attain': fmax - f(x*) <= 1e-12 at the documented maximisers "
+    "objectives and RNG reseeding, on a second instance that evaluated other points / other dimensions first, input not mutated); subcheck 'attain': fmax - f(x*) <= 1e-12 at the documented maximisers "
     "(Garland: f(pi/6) > 1 - 0.003); subcheck 'dimension': wrong-length points raise ValueError. non-trivial = the point is "
     "within 1e-3 width of a special point or on the box boundary; distinct = SHA-1 of (objective, params, x)."
 )
@@ -189,11 +189,32 @@ def check_point(case):
         if not (f2 == fx and f3 == fx):
             return Outcome(violation={"clause": "impure", "msg": "%s(%r).f(%r) gave %r, %r, %r" % (name, params, x, fx, f2, f3),
                                       "round": None}, classes=classes)
-        if name.startswith("Perturbed"):
-            obj2 = construct(name, params)
-            if obj2.f(x) != fx or obj2.fmax != fmax:
-                return Outcome(violation={"clause": "impure", "msg": "%s: same seed at construction, different function" % name,
-                                          "round": None}, classes=classes)
+        # history independence: a second instance (same construction seed for the perturbed variants) that has
+        # evaluated OTHER points first - other coordinates and, where the objective takes any dimension, another
+        # dimension - must give the same value at x
+        obj2 = construct(name, params)
+        if obj2.fmax != fmax:
+            return Outcome(violation={"clause": "impure", "msg": "%s: same construction, different fmax" % name, "round": None}, classes=classes)
+        bx = boxes(name, params)
+        others = [[(lo + hi) / 2 for lo, hi in bx], [lo + 0.25 * (hi - lo) for lo, hi in bx]]
+        if name in ("Rastrigin", "Rastrigin_Normalized"):
+            for q in (1, 2, 3, 4):
+                if q != len(bx):
+                    others.append([0.3] * q)
+        for k, v in enumerate(case["x"]):
+            if float(v).is_integer():
+                # x sits on the integer lattice: evaluate its lattice neighbours first (a cache keyed by a
+                # hash of the point can confuse them: hash(-1.0) == hash(-2.0) in CPython)
+                for w in (-2.0, -1.0, 0.0, 1.0, 2.0):
+                    if w != v and bx[k][0] <= w <= bx[k][1]:
+                        others.append([w if j == k else u for j, u in enumerate(case["x"])])
+        others.reverse()  # another dimension first: a value cached at the first call must not leak
+        for o in others:
+            obj2.f(o)
+        f4 = obj2.f(_typed(case["x"], case["xtype"]))
+        if not (f4 == fx):
+            return Outcome(violation={"clause": "impure", "msg": "%s(%r).f(%r) = %r on a fresh instance but %r on an instance that evaluated %r first" % (
+                name, params, x, fx, f4, others), "round": None}, classes=classes)
     box = boxes(name, params)
     nt = False
     for k, (v, (lo, hi)) in enumerate(zip(case["x"], box)):
